@@ -49,7 +49,9 @@ THEOREMS = [
     "Mpc.C03_early_return_eq_if_else",
     "Mpc.C03_for_unroll_step",
     "Mpc.C03_for_unroll_done",
-    "Mpc.C03_for_unroll_three",
+    "Mpc.C03_for_unroll",
+    "Mpc.C03_for_unroll_conv",
+    "Mpc.C03_ssa_lower_correct_partial",
     "Mpc.C03_fuel_irrelevant",
     "Mpc.C03_fuel_irrelevant_raw",
     "Mpc.C03_shipped_vectors",
@@ -62,7 +64,62 @@ SIG_MISMATCH = "c03-output-mismatch"
 SIG_REJECT = "c03-compile-rejected"
 
 
-def classify(ctx, mode, seed, ops, out, model, srcs, maxkeep=40):
+def localise(a, b, s):
+    """Where does a source-vs-circuit disagreement arise, judged by the SSA-level evaluation `s`?"""
+    if s is None or s == "skip":
+        return "not localised (no SSA-level evaluation)"
+    if s == a and s != b:
+        return "front end (AST -> SSA): the SSA-level evaluation agrees with the circuit"
+    if s == b and s != a:
+        return "back end (SSA -> circuit): the SSA-level evaluation agrees with the source semantics"
+    return "both stages (the SSA-level evaluation agrees with neither)"
+
+
+def classify_ssa(ctx, mode, seed, out, model, ssamodel, srcs, maxkeep=10):
+    """SSA-level tie: ssaEval(dumped SSA) must equal the circuit (and, outside the known deviations, the source
+    semantics).  A disagreement with the circuit where source and circuit agree is an unexplained failure of the
+    SSA -> circuit stage (or of its Lean model)."""
+    try:
+        recs = [json.loads(l) for l in open(srcs, errors="replace") if l.strip()]
+    except Exception:  # noqa: BLE001
+        recs = []
+    n = skipped = bad = kept = 0
+    with open(out, errors="replace") as fi, open(model, errors="replace") as fm, open(ssamodel, errors="replace") as fs:
+        for i, a in enumerate(fi):
+            b, s = fm.readline().rstrip("\n"), fs.readline().rstrip("\n")
+            a = a.rstrip("\n")
+            if s == "skip" or a.startswith("compile-"):
+                skipped += 1
+                continue
+            n += 1
+            if s == a:
+                continue
+            bad += 1
+            rec = recs[i] if i < len(recs) else {}
+            if kept < maxkeep:
+                kept += 1
+                aa, ss = a.split(";"), s.split(";")
+                differ = [j for j in range(min(len(aa), len(ss))) if aa[j] != ss[j]]
+                ins = rec.get("inputs", "")
+                tuples = ins.split(";") if ins and ins != "all" else None
+                j = differ[0] if differ else 0
+                ctx.fails.append({
+                    "sig": "c03-ssa-circuit-mismatch", "mode": mode, "seed": seed, "case": rec.get("case", i),
+                    "defect": "", "name": rec.get("name", ""), "source": vlib.clip(rec.get("src", ""), 6000),
+                    "input": tuples[j] if tuples and j < len(tuples) else "exhaustive-counter:%d" % j,
+                    "impl": aa[j] if j < len(aa) else "", "ssa_model": ss[j] if j < len(ss) else vlib.clip(s, 100),
+                    "source_model_agrees_with_circuit": a == b,
+                    "rerun": "MPCLDIR=%s c03 %s -seed %d -n %d -tier %s -only %s -ops o -out r -srcs s -ssaops q; "
+                             "drv_c03 < q | diff - r" % (vlib.REPO, mode, seed, int(rec.get("case", i)) + 1, ctx.tier,
+                                                        rec.get("case", i))})
+    ctx.coverage["ssa_tie_%s_seed%d" % (mode, seed)] = {"programs": n, "skipped": skipped, "disagreements": bad}
+    ctx.coverage["ssa_programs"] = ctx.coverage.get("ssa_programs", 0) + n
+    ctx.coverage["ssa_skipped"] = ctx.coverage.get("ssa_skipped", 0) + skipped
+    ctx.oblige("SSA-level tie %s seed %d: ssaEval(real compiler's SSA) = compiled circuit on %d programs (%d skipped)"
+               % (mode, seed, n, skipped), bad == 0 and n > 0, "%d disagreements (see failures)" % bad)
+
+
+def classify(ctx, mode, seed, ops, out, model, srcs, maxkeep=40, ssamodel=None):
     """Line-by-line translation validation.  Every disagreement becomes an
     oracle failure carrying the program, the first differing input and both
     answers; failures in the known-deviation probe classes carry the class in
@@ -75,6 +132,12 @@ def classify(ctx, mode, seed, ops, out, model, srcs, maxkeep=40):
     except Exception as e:  # noqa: BLE001
         ctx.oblige("sidecar of %s seed %d readable" % (mode, seed), False, str(e))
         return
+    ssalines = None
+    if ssamodel:
+        try:
+            ssalines = open(ssamodel, errors="replace").read().split("\n")
+        except Exception:  # noqa: BLE001
+            ssalines = None
     with open(ops, errors="replace") as fo, open(out, errors="replace") as fi, open(model, errors="replace") as fm:
         for i, (op, a) in enumerate(zip(fo, fi)):
             b = fm.readline()
@@ -119,6 +182,7 @@ def classify(ctx, mode, seed, ops, out, model, srcs, maxkeep=40):
                     f["impl"] = aa[j]
                     f["model"] = bb[j]
                     f["model_undefined"] = bb[j] == "E"
+                f["localised"] = localise(a, b, ssalines[i] if ssalines and i < len(ssalines) else None)
             ctx.fails.append(f)
     ctx.evaluations += n
     key = "validation_%s_seed%d" % (mode, seed)
@@ -133,9 +197,12 @@ def classify(ctx, mode, seed, ops, out, model, srcs, maxkeep=40):
 def one_run(ctx, mode, n, seed, tag=""):
     base = os.path.join(ctx.work, "%s%s-%d" % (mode, tag, seed))
     srcs = base + ".srcs"
-    ops, out, meta = ctx.run_hx(mode, n, seed=seed, extra_args=["-srcs", srcs], tag=tag, timeout=2400)
+    ssaops = base + ".ssaops"
+    ops, out, meta = ctx.run_hx(mode, n, seed=seed, extra_args=["-srcs", srcs, "-ssaops", ssaops], tag=tag,
+                                timeout=2400)
     model, rc = ctx.run_drv(ops, timeout=2400)
-    return mode, seed, ops, out, meta, model, rc, srcs
+    ssamodel, rc2 = (ctx.run_drv(ssaops, timeout=2400) if os.path.exists(ssaops) else (None, 1))
+    return mode, seed, ops, out, meta, model, rc or rc2, srcs, ssamodel
 
 
 def run(ctx):
@@ -155,10 +222,12 @@ def run(ctx):
             futs = [ex.submit(one_run, ctx, m, n, s) for (m, n, s) in jobs]
             for f in futs:
                 results.append(f.result())
-        for mode, seed, ops, out, meta, model, rc, srcs in results:
+        for mode, seed, ops, out, meta, model, rc, srcs, ssamodel in results:
             ctx.absorb_meta(meta, prefix="" if mode == "gen" else mode + "_")
-            ctx.oblige("model driver ran %s seed %d" % (mode, seed), rc == 0, "rc=%d" % rc)
-            classify(ctx, mode, seed, ops, out, model, srcs)
+            ctx.oblige("model driver ran %s seed %d (source and SSA level)" % (mode, seed), rc == 0, "rc=%d" % rc)
+            classify(ctx, mode, seed, ops, out, model, srcs, ssamodel=ssamodel)
+            if ssamodel:
+                classify_ssa(ctx, mode, seed, out, model, ssamodel, srcs)
         # every shipped @Test vector through the real compiler (oracle only)
         ops, out, meta = ctx.run_hx("testsuite", 0, timeout=2400)
         ctx.absorb_meta(meta, prefix="tv_")
@@ -187,6 +256,19 @@ def run(ctx):
         missing = [k for k in need if c.get(k, 0) == 0]
         ctx.oblige("generator reached every listed language feature (%d features)" % len(need), not missing,
                    "never generated: %s" % missing)
+        # SSA-level tie: opcodes evaluated, nothing skipped silently
+        opc = {k[len("ssaop_"):]: v for k, v in c.items() if k.startswith("ssaop_")}
+        ctx.coverage["ssa_opcodes_covered"] = opc
+        ctx.coverage["ssa_steps"] = sum(opc.values())
+        ctx.coverage["ssa_skip_reasons"] = {k: v for k, v in c.items() if k.startswith("ssa_skip_")}
+        ctx.coverage["ssa_programs_with_use_before_def"] = c.get("ssa_programs_with_use_before_def", 0)
+        need_ops = ["iadd", "uadd", "isub", "usub", "imult", "umult", "idiv", "udiv", "imod", "umod", "band", "bor", "bxor",
+                    "bclr", "lshift", "rshift", "srshift", "slice", "index", "ilt", "ult", "ile", "ule", "igt", "ugt",
+                    "ige", "uge", "eq", "neq", "and", "or", "not", "mov", "smov", "amov", "phi", "ret"]
+        miss_ops = [k for k in need_ops if opc.get(k, 0) == 0]
+        ctx.oblige("SSA-level tie exercised every supported opcode (%d opcodes), skipped programs < 2%%" % len(need_ops),
+                   not miss_ops and ctx.coverage.get("ssa_skipped", 0) * 50 <= max(1, ctx.coverage.get("ssa_programs", 0)),
+                   "opcodes never seen: %s; skipped %s" % (miss_ops, ctx.coverage.get("ssa_skip_reasons")))
         ctx.coverage["programs_exhaustive_inputs"] = c.get("programs_exhaustive", 0)
         ctx.coverage["circuit_evaluations"] = c.get("evaluations", 0) + c.get("witness_evaluations", 0)
     ctx.coverage["rule"] = (
@@ -208,11 +290,21 @@ def run(ctx):
         "the harness's printer and serialiser render the same AST (trusted; the README/testsuite programs read from the "
         "repository are paired with hand-written ASTs and validated on 64 inputs each)",
         "default compiler parameters (Yao target, all optimisations); other options/targets are C09",
+        "SSA-level model: every circuit builder is replaced by the function it should compute on zero-padded operands "
+        "(builder exactness is C07); the dumped steps are given in a stable topological order because Program.Circuit is a "
+        "dataflow lowering and the step list occasionally uses a value before the step defining it (counted: "
+        "ssa_programs_with_use_before_def); the dumped program object is the one lowered (its circuit is compared with "
+        "compiler.Compile's gate by gate); the constant-to-wires rule (DefineConstants + re-sizing) is modelled in Lean",
     ]
     return ctx.finish(
         "Oracle: Lean big-step interpreter (fuel, total) of the MPCL subset; theorems: every operator of the interpreter is "
         "the BitVec operation of the declared width (incl. sdiv truncation, |a| mod |b|, arithmetic shift, casts), "
-        "early-return elimination, loop unrolling, the shipped @Test vectors evaluated in the model, witnesses of the "
-        "known deviations.  Validation: real compiler.Compile + circuit.Compute vs the interpreter on generated programs "
+        "early-return elimination, loop unrolling for EVERY trip count (for = n-fold composition of the body, both "
+        "directions), fuel irrelevance, the shipped @Test vectors evaluated in the model, witnesses of the known "
+        "deviations; SSA level: Lean evaluator ssaEval of the real compiler's SSA step lists (Model/MpclSsa.lean) and the "
+        "theorem that on the straight-line fragment ssaEval(lower p) = run p for a Lean model `lower` of ssagen "
+        "(C03_ssa_lower_correct_partial).  Validation, three-way on every generated program and input: ssaEval(dumped "
+        "real SSA) = Lean source interpreter = real compiler.Compile + circuit.Compute (a source-vs-circuit disagreement "
+        "is localised to AST->SSA or SSA->circuit by the middle term), on generated programs "
         "(exhaustive inputs where <= 12..16 input bits) and on README/testsuite programs; all @Test vectors of "
         "/repo/testsuite through the real compiler (sha512-dependent files skipped: circuit files emptied in this tree).")
